@@ -481,7 +481,7 @@ def check_ev(case, rec):
     if a3 is not a or types.nutils_hash(a3) != ha:
         raise Violation('interning', 'pickle round trip of an evaluable gives a different object or hash', where='interning:evaluable-pickle')
     ops = {n['op'] for n in case['p1']['nodes']}
-    if 'diagonalize' in ops and ops & {'inflate', 'take'}:
+    if 'diagonalize' in ops and ops & {'inflate', 'take', 'concat', 'stack'}:
         # excluded by construction: simplification of such programs may not terminate (open finding C01-inflate-diagonalize-nontermination);
         # termination is not this property's subject, so the cached-simplification step is skipped and counted
         rec.label('simplify-skipped:upstream-C01')
